@@ -608,7 +608,7 @@ func runHostileAgent(args []string) {
 	keyfile := args[1] + "/agentkey"
 	ioutil.WriteFile(keyfile, []byte(fmt.Sprintf("%x", cryptoFromECDSA(id.key))), 0600)
 	modes := []string{"badhandshake-garbage", "badhandshake-neither", "badhandshake-wrongtype", "requests-unknown", "requests-badparams", "requests-whitelist-odd",
-		"requests-deep", "requests-noid", "replies-unsolicited", "update-reply-odd", "update-reply-neither", "honest"}
+		"requests-deep", "requests-noid", "replies-unsolicited", "update-reply-odd", "update-reply-neither", "honest", "legacy-client-requests"}
 	up := gorillaws.Upgrader{}
 	for _, mode := range modes {
 		mode := mode
@@ -638,7 +638,12 @@ func runHostileAgent(args []string) {
 					c.WriteMessage(gorillaws.TextMessage, []byte(`{"jsonrpc":"2.0","id":`+reqID+`,`+body+`}`))
 				}
 				switch {
-				case method == "vipnode_connect":
+				case method == "vipnode_connect" || method == "vipnode_client":
+					if mode == "legacy-client-requests" {
+						c.WriteMessage(gorillaws.TextMessage, []byte(`{"jsonrpc":"2.0","id":1,"method":"vipnode_whitelist","params":["abc"]}`))
+						c.WriteMessage(gorillaws.TextMessage, []byte(`{"jsonrpc":"2.0","id":2,"method":"nosuch"}`))
+						time.Sleep(100 * time.Millisecond)
+					}
 					switch mode {
 					case "badhandshake-garbage":
 						c.WriteMessage(gorillaws.TextMessage, []byte(`{"jsonrpc":"2.0","id":`+reqID+`,"result":{"pool_ver`))
@@ -699,6 +704,10 @@ func runHostileAgent(args []string) {
 		}))
 		cmd := exec.Command(args[0], "agent", "ws"+strings.TrimPrefix(srv.URL, "http"), "--rpc", "fakenode://"+id.nodeID+"?fullnode=1", "--nodekey", keyfile,
 			"--update-interval", "6s", "--enode", "enode://"+id.nodeID+"@10.0.0.9:30303")
+		if mode == "legacy-client-requests" {
+			// the deprecated `client` command serves its connection without any handler
+			cmd = exec.Command(args[0], "client", "ws"+strings.TrimPrefix(srv.URL, "http"), "--rpc", "fakenode://"+id.nodeID, "--nodekey", keyfile)
+		}
 		var out bytes.Buffer
 		cmd.Stdout, cmd.Stderr = &out, &out
 		if err := cmd.Start(); err != nil {
